@@ -1,4 +1,5 @@
 """C01: no input can crash, hang or wedge the emulator (R-PANIC, R-TERM, R-LOCK, R-SEND, R-CAP)."""
+import re
 from . import structural
 from .ctx import BYTE_FNS, CLOSURE, PARSER_FNS
 from .model import short
@@ -127,6 +128,13 @@ def run(ctx, chk):
                     worst = net if worst is None else min(worst, net)
                 li['ok'] = bool(segs) and worst is not None and worst >= 1
                 li['why'] += '; least net removal per iteration over %d abstract iteration paths: %s' % (len(segs), worst)
+            if li['kind'] == 'for' and not li['ok'] and 'not known to be finite' in li['why']:
+                # a crate-local iterator type: finite if the engine showed its `next` to be a range's
+                m_ = re.search(r'iterator type &mut (\S+) not known', li['why'])
+                rl = m_ and any(getattr(e_, 'rangelike', {}).get(m_.group(1)) for e_ in (eng_s, eng_p))
+                if rl:
+                    li['ok'] = True
+                    li['why'] = '`for` over %s, whose next() has exactly the outcomes of Range::next on two of its fields' % m_.group(1)
             if li['kind'] == 'while-cmp':
                 # ranking argument read off the abstract paths through the body (engine.probe_loop): the
                 # guard compares a local with a value the loop does not change, and on every path to
